@@ -16,6 +16,7 @@ use std::task::{Context, Poll, Waker};
 thread_local! {
     static PEEKING: Cell<bool> = const { Cell::new(false) };
     static PEEK_READY: Cell<bool> = const { Cell::new(false) };
+    static PEEK_DEAD: Cell<bool> = const { Cell::new(false) };
     static NO_POINT: Cell<bool> = const { Cell::new(false) };
 }
 
@@ -29,6 +30,11 @@ pub fn peeking() -> bool {
 pub fn report(ready: bool) {
     PEEK_READY.with(|p| p.set(ready));
 }
+/// the arm is ready only because its channel is closed and empty (it will yield an error)
+#[inline]
+pub fn report_dead(dead: bool) {
+    PEEK_DEAD.with(|p| p.set(dead));
+}
 /// Scheduling point at the first poll of a model future, unless a select drives the poll.
 #[inline]
 pub fn op_point() {
@@ -39,7 +45,8 @@ pub fn op_point() {
 
 pub enum Peek<T> {
     Ready(T),
-    Hint(bool),
+    /// (ready, dead)
+    Hint(bool, bool),
 }
 
 pub fn enter() {
@@ -49,13 +56,14 @@ pub fn enter() {
 pub fn peek<F: Future + Unpin>(f: Pin<&mut F>) -> Peek<F::Output> {
     PEEKING.with(|p| p.set(true));
     PEEK_READY.with(|p| p.set(false));
+    PEEK_DEAD.with(|p| p.set(false));
     let mut cx = Context::from_waker(Waker::noop());
     let r = f.poll(&mut cx);
     PEEKING.with(|p| p.set(false));
     match r {
         // a future that is not one of the model's: it completed, the arm has fired
         Poll::Ready(v) => Peek::Ready(v),
-        Poll::Pending => Peek::Hint(PEEK_READY.with(|p| p.get())),
+        Poll::Pending => Peek::Hint(PEEK_READY.with(|p| p.get()), PEEK_DEAD.with(|p| p.get())),
     }
 }
 
@@ -66,15 +74,55 @@ pub fn real<F: Future + Unpin>(f: Pin<&mut F>, cx: &mut Context<'_>) -> Poll<F::
     r
 }
 
-pub fn pick(ready: &[bool]) -> Option<usize> {
-    let idx: Vec<usize> = (0..ready.len()).filter(|i| ready[*i]).collect();
+thread_local! {
+    /// fairness for closed-channel spins, as in `chan::run_select`
+    static STREAK: std::cell::RefCell<std::collections::HashMap<usize, Vec<usize>>> = std::cell::RefCell::new(Default::default());
+}
+pub(crate) fn reset_streaks() {
+    STREAK.with(|s| s.borrow_mut().clear());
+}
+
+pub fn pick(ready: &[bool], dead: &[bool]) -> Option<usize> {
+    let mut idx: Vec<usize> = (0..ready.len()).filter(|i| ready[*i]).collect();
     if idx.is_empty() {
+        if kernel::in_model() {
+            let me = kernel::me();
+            STREAK.with(|s| {
+                s.borrow_mut().remove(&me);
+            });
+        }
         return None;
+    }
+    let model = kernel::in_model();
+    if model && idx.len() > 1 {
+        let me = kernel::me();
+        let fired: Vec<usize> = STREAK.with(|s| s.borrow().get(&me).cloned().unwrap_or_default());
+        if !fired.is_empty() {
+            let fresh: Vec<usize> = idx.iter().copied().filter(|i| !fired.contains(i)).collect();
+            if !fresh.is_empty() {
+                idx = fresh;
+            } else {
+                STREAK.with(|s| s.borrow_mut().remove(&me));
+            }
+        }
     }
     if idx.len() > 1 {
         crate::world::with_world(|w| w.select_ties += 1);
     }
-    Some(idx[crate::sched::choose(idx.len())])
+    let i = idx[crate::sched::choose(idx.len())];
+    if model {
+        let me = kernel::me();
+        if dead[i] {
+            STREAK.with(|s| s.borrow_mut().entry(me).or_default().push(i));
+            // a task that keeps receiving errors from closed channels is spinning: make it visible
+            kernel::yield_now();
+        } else {
+            STREAK.with(|s| {
+                s.borrow_mut().remove(&me);
+            });
+        }
+    }
+    Some(i)
 }
 
 #[macro_export]
@@ -127,13 +175,14 @@ macro_rules! __asel_emit {
             ::std::future::poll_fn(|__cx: &mut ::core::task::Context<'_>| -> ::core::task::Poll<usize> {
                 $crate::aselect::enter();
                 let mut __ready = [false; 8];
+                let mut __dead = [false; 8];
                 $(
                     match $crate::aselect::peek(::core::pin::Pin::new(&mut $f)) {
                         $crate::aselect::Peek::Ready(__v) => { $r = ::core::option::Option::Some(__v); return ::core::task::Poll::Ready($i); }
-                        $crate::aselect::Peek::Hint(__h) => { __ready[$i] = __h; }
+                        $crate::aselect::Peek::Hint(__h, __d) => { __ready[$i] = __h; __dead[$i] = __d; }
                     }
                 )+
-                match $crate::aselect::pick(&__ready) {
+                match $crate::aselect::pick(&__ready, &__dead) {
                     ::core::option::Option::Some(__k) => {
                         $(
                             if __k == $i {
